@@ -38,6 +38,7 @@ COVERS_STATE = [
 
 RESUME_FILE = "emu_mps_save_resume.dat"
 REF_FILE = "emu_mps_save_reference.dat"
+MOVED_FROM = "emu_mps_save_original_location.dat"
 IDS3 = ("qa", "qb", "qc")
 BITKEYS = {2: ["10", "01"], 3: ["100", "010", "001"]}
 
@@ -238,7 +239,10 @@ def resume_equals_uninterrupted(n, classes, j_max, with_lists, tagsets=TAGSETS):
                 env.check_eq(last, T.stack([by_atom[a] for a in ref.atom_order]), "uninterrupted run: occupation follows the reported atom order")
 
             # --- resumed run ---------------------------------------------------------------
-            impl_res = _make_impl(env, cls_name, cfg, fs, RESUME_FILE, n, ids, perm, k_done, j_left, tagset, bitkey, as_lists, None)
+            # the snapshot remembers the path it was written to; the user may have moved/renamed the file since
+            moved = env.boolean("autosave file moved before resuming")
+            stored_name = MOVED_FROM if moved else RESUME_FILE
+            impl_res = _make_impl(env, cls_name, cfg, fs, stored_name, n, ids, perm, k_done, j_left, tagset, bitkey, as_lists, None)
             saved["snap0"] = impl_res
             clock = FakeTime(env, t_resume0)
             patch.set(mi, "time", clock)
@@ -250,6 +254,10 @@ def resume_equals_uninterrupted(n, classes, j_max, with_lists, tagsets=TAGSETS):
             if env.mutant("file_must_remain"):
                 gone = not gone
             env.check(gone, "the autosave file is removed when the resumed run finishes")
+            env.check(
+                not fs.exists(MOVED_FROM) and not fs.exists(FakePath(fs, MOVED_FROM).with_suffix(".new")),
+                "the resumed run writes nothing at the location the snapshot was originally saved to",
+            )
             env.check(
                 not fs.exists(FakePath(fs, RESUME_FILE).with_suffix(".bak")) and not fs.exists(FakePath(fs, RESUME_FILE).with_suffix(".new")),
                 "no .bak/.new side files are left behind by the resumed run",
